@@ -604,6 +604,9 @@ pub fn cosine_distance_int8(a: &[i8], b: &[i8]) -> f64 {
         norm_b += y * y;
     }
 
+    if norm_a == 0 && norm_b == 0 {
+        return 0.0; // Identical (zero) inputs are at distance zero
+    }
     if norm_a == 0 || norm_b == 0 {
         return 1.0; // Maximum distance for zero vectors
     }
